@@ -7,12 +7,12 @@ From Snax Require Import Base.Prelude Model.C17Loop Proofs.C17LoopProofs Proofs.
 
 (* ChangeForStep (after the repair of F14): same events, same operands, same order; the environment seen
    by the rest of the block differs only on the fresh names introduced by the rewrite. *)
-Theorem C17_change_step_trace : forall Sc fresh o ops e,
+Theorem C17_change_step_trace : forall Sc fresh o ops e h,
   change_step Sc fresh o = Some ops ->
   scope_ok Sc e ->
   (forall v, In v (vars_op o) -> (v < fresh)%nat) ->
-  trace ops e = snd (exec_op o e) /\
-  agree (fresh_from fresh) (fst (exec_block ops e)) (fst (exec_op o e)).
+  trace ops e h = snd (exec_op o e h) /\
+  agree (fresh_from fresh) (fst (exec_block ops e h)) (fst (exec_op o e h)).
 Proof. exact change_step_trace. Qed.
 Print Assumptions C17_change_step_trace.
 
@@ -20,26 +20,26 @@ Print Assumptions C17_change_step_trace.
 Theorem C17_change_step_refuted_floor :
   exists b b',
     apply_at (fun Sc o => change_step_floor Sc (S (maxvar b)) o) [3%nat] [] b = Some b' /\
-    trace b env0 <> trace b' env0.
+    trace b env0 [] <> trace b' env0 [].
 Proof. exact change_step_refuted_floor. Qed.
 Print Assumptions C17_change_step_refuted_floor.
 
 (* MergeForLoops (after the repairs of F15 and F15b). *)
-Theorem C17_merge_trace : forall Sc fresh j o ops e,
+Theorem C17_merge_trace : forall Sc fresh j o ops e h,
   merge_loops Sc fresh j o = Some ops ->
   scope_ok Sc e ->
   (forall v, In v (vars_op o) -> (v < fresh)%nat) ->
   (forall iv lb ub st body, o = For iv lb ub st body ->
      NoDup (map fst (defs_top body)) /\ ~ In iv (map fst (defs_top body)) /\ ~ In iv (map fst Sc)) ->
-  trace ops e = snd (exec_op o e) /\
-  agree (fresh_from fresh) (fst (exec_block ops e)) (fst (exec_op o e)).
+  trace ops e h = snd (exec_op o e h) /\
+  agree (fresh_from fresh) (fst (exec_block ops e h)) (fst (exec_op o e h)).
 Proof. exact merge_trace. Qed.
 Print Assumptions C17_merge_trace.
 
 Theorem C17_merge_refuted_without_nest_check :
   exists b b',
     apply_at (fun Sc o => merge_loops_no_nest_check Sc (S (maxvar b)) 1 o) [4%nat] [] b = Some b' /\
-    trace b env0 <> trace b' env0 /\
+    trace b env0 [] <> trace b' env0 [] /\
     apply_at (fun Sc o => merge_loops Sc (S (maxvar b)) 1 o) [4%nat] [] b = None.
 Proof. exact merge_refuted_without_nest_check. Qed.
 Print Assumptions C17_merge_refuted_without_nest_check.
@@ -47,7 +47,7 @@ Print Assumptions C17_merge_refuted_without_nest_check.
 Theorem C17_merge_refuted_without_sign_check :
   exists b b',
     apply_at (fun Sc o => merge_loops_no_neg_check Sc (S (maxvar b)) 0 o) [4%nat] [] b = Some b' /\
-    trace b env0 <> trace b' env0 /\
+    trace b env0 [] <> trace b' env0 [] /\
     apply_at (fun Sc o => merge_loops Sc (S (maxvar b)) 0 o) [4%nat] [] b = None.
 Proof. exact merge_refuted_without_sign_check. Qed.
 Print Assumptions C17_merge_refuted_without_sign_check.
@@ -55,26 +55,26 @@ Print Assumptions C17_merge_refuted_without_sign_check.
 (* LoopHoistPureOperations: moving a pure op / an alloc whose operands are defined outside the loop in
    front of the loop keeps the trace, also for zero-trip loops; only the hoisted name becomes visible
    after the loop. *)
-Theorem C17_hoist_trace : forall Sc j o ops e,
+Theorem C17_hoist_trace : forall Sc j o ops e h,
   hoist Sc j o = Some ops ->
   hoist_side j o ->
-  trace ops e = snd (exec_op o e) /\
-  agree (hoisted_name j o) (fst (exec_block ops e)) (fst (exec_op o e)).
+  trace ops e h = snd (exec_op o e h) /\
+  agree (hoisted_name j o) (fst (exec_block ops e h)) (fst (exec_op o e h)).
 Proof. exact hoist_trace. Qed.
 Print Assumptions C17_hoist_trace.
 
 (* Any rule, at any position of a well-formed SSA program, from any environment of the free names. *)
-Theorem C17_rewrite_trace : forall r path args b b' e,
+Theorem C17_rewrite_trace : forall r path args b b' e h,
   wf_prog args b = true ->
   rewrite r path b = Some b' ->
-  trace b' e = trace b e.
+  trace b' e h = trace b e h.
 Proof. exact rewrite_trace. Qed.
 Print Assumptions C17_rewrite_trace.
 
 (* ... and any finite sequence of rule applications whose intermediate programs are well-formed SSA. *)
-Theorem C17_rewrite_seq_trace : forall steps args b b' e,
+Theorem C17_rewrite_seq_trace : forall steps args b b' e h,
   rewrite_seq args steps b = Some b' ->
-  trace b' e = trace b e.
+  trace b' e h = trace b e h.
 Proof. exact rewrite_seq_trace. Qed.
 Print Assumptions C17_rewrite_seq_trace.
 
@@ -84,7 +84,7 @@ Print Assumptions C17_rewrite_seq_trace.
 Theorem C17_rewrite_seq_in_trace : forall steps args b b',
   wf_prog args b = true ->
   rewrite_seq_in args steps b = Some b' ->
-  (forall e, trace b' e = trace b e) /\ wf_prog args b' = true.
+  (forall e h, trace b' e h = trace b e h) /\ wf_prog args b' = true.
 Proof. exact rewrite_seq_in_trace. Qed.
 Print Assumptions C17_rewrite_seq_in_trace.
 
@@ -144,7 +144,7 @@ Print Assumptions C17_move_dim_min_refuted.
 Example C17_change_step_nonvacuous :
   wf_prog [] c17_step_witness = true /\
   exists b', rewrite RChangeStep [3%nat] c17_step_witness = Some b' /\ block_eqb b' c17_step_witness = false /\
-             length (trace b' env0) = 3%nat.
+             length (trace b' env0 []) = 3%nat.
 Proof. split; [reflexivity|]. eexists. split; [vm_compute; reflexivity|]. split; reflexivity. Qed.
 Print Assumptions C17_change_step_nonvacuous.
 
@@ -152,7 +152,7 @@ Example C17_merge_nonvacuous :
   let b := ([Def 0 (PConst 0%Z); Def 1 (PConst 2%Z); Def 2 (PConst 3%Z); Def 3 (PConst 1%Z);
              For 4 0 1 3 [Def 6 (PBin BAdd 4 4); For 5 0 2 3 [Eff 1 [4; 5; 6]]]])%nat in
   wf_prog [] b = true /\
-  exists b', rewrite (RMerge 1) [4%nat] b = Some b' /\ length (trace b' env0) = 6%nat.
+  exists b', rewrite (RMerge 1) [4%nat] b = Some b' /\ length (trace b' env0 []) = 6%nat.
 Proof. split; [reflexivity|]. eexists. split; [vm_compute; reflexivity|]. reflexivity. Qed.
 Print Assumptions C17_merge_nonvacuous.
 
@@ -170,7 +170,7 @@ Print Assumptions C17_hoist_nonvacuous.
 Example C17_move_dim_nonvacuous :
   let Sin := [(3%nat, PSubview 0%nat [DDyn 2%nat; DStatic 4]); (2%nat, PDim 0%nat 1%nat)] in
   let Sout := [(1%nat, PConst 1)] in
-  let e := env_of [(3%nat, VMem [7; 4]); (2%nat, VInt 7); (1%nat, VInt 1); (0%nat, VMem [5; 7])] in
+  let e := env_of [(3%nat, VMem 9 [7; 4]); (2%nat, VInt 7); (1%nat, VInt 1); (0%nat, VMem 9 [5; 7])] in
   resolve_dim 8 Sin Sout 3%nat 0 = Some (RNewDim 0%nat 1) /\ repl_safe (RNewDim 0%nat 1) = true /\
   defs_ok (Sin ++ Sout) e /\ eval_repl e (RNewDim 0%nat 1) = 7 /\ nth (Z.to_nat 0) (shape_of (e 3%nat)) 0 = 7.
 Proof.
@@ -179,3 +179,22 @@ Proof.
   destruct v as [|[|[|[|v]]]]; cbn in H; try discriminate; inversion H; subst; reflexivity.
 Qed.
 Print Assumptions C17_move_dim_nonvacuous.
+
+(* Memory: stores are events and heap entries, loads return the value last stored at the address.  A
+   memref.load is not hoistable (the real pattern requires `Pure`); hoisting one over a store to the same
+   address changes the VALUE an opaque op observes.  The theorems above hold for this semantics, for every
+   initial heap h. *)
+Example C17_load_hoist_changes_observed_value :
+  let b := ([Def 2 (PConst 0%Z); Def 3 (PConst 1%Z); Def 4 (PConst 2%Z); Def 5 (PAlloc [DStatic 4%Z]);
+             For 6 2 4 3 [Def 7 (PLoad 5 [2]); Eff 1 [7]; Def 8 (PBin BAdd 7 3); Eff 0 [8; 5; 2]]])%nat in
+  let hoisted := ([Def 2 (PConst 0%Z); Def 3 (PConst 1%Z); Def 4 (PConst 2%Z); Def 5 (PAlloc [DStatic 4%Z]);
+             Def 7 (PLoad 5 [2]);
+             For 6 2 4 3 [Eff 1 [7]; Def 8 (PBin BAdd 7 3); Eff 0 [8; 5; 2]]])%nat in
+  wf_prog [] b = true /\
+  rewrite_in [] (RHoist 0) [4%nat] b = None /\              (* the model (as the code) does not hoist the load *)
+  map (fun ev => (fst ev, hd (VInt 0) (snd ev))) (trace b env0 []) =
+    [(1%nat, VInt 0); (0%nat, VInt 1); (1%nat, VInt 1); (0%nat, VInt 2)] /\
+  map (fun ev => (fst ev, hd (VInt 0) (snd ev))) (trace hoisted env0 []) =
+    [(1%nat, VInt 0); (0%nat, VInt 1); (1%nat, VInt 0); (0%nat, VInt 1)].
+Proof. split; [reflexivity|]. split; [reflexivity|]. split; reflexivity. Qed.
+Print Assumptions C17_load_hoist_changes_observed_value.
